@@ -189,6 +189,29 @@ fn main() {
             let v: serde_json::Value = serde_json::from_str(&s).unwrap_or_default();
             let id = v["property"].as_str().unwrap_or_default().to_string();
             let Some(c) = get_check(&id) else { std::process::exit(2) };
+            if v["class"].as_str().is_some_and(|c| c.ends_with("/crash")) {
+                // the case kills the process that executes it: run it in a child
+                use std::io::Write as _;
+                use std::os::unix::process::ExitStatusExt as _;
+                let mut child = std::process::Command::new(std::env::current_exe().unwrap())
+                    .args(["exec-case", &id])
+                    .stdin(std::process::Stdio::piped())
+                    .stdout(std::process::Stdio::null())
+                    .spawn()
+                    .expect("spawn");
+                let _ = child.stdin.take().unwrap().write_all(v["case"].to_string().as_bytes());
+                let st = child.wait().expect("wait");
+                match st.signal() {
+                    Some(sig) => {
+                        println!("REPRODUCED property={id} class={id}/crash detail=killed by signal {sig}");
+                        std::process::exit(1);
+                    }
+                    None => {
+                        println!("NOT-REPRODUCED property={id} (exit {:?})", st.code());
+                        std::process::exit(0);
+                    }
+                }
+            }
             let verdict = c.execute(&v["case"]);
             if let Some(e) = verdict.harness_error {
                 println!("HARNESS-ERROR {e}");
